@@ -13,7 +13,7 @@ EVIDENCE = dict(
          "nothing or a heading level (built-in style, name only in either case, outline level only; ODT: with / without "
          "default-outline-level) and whose root is based on nothing / the default style / an undefined style / a style of the "
          "chain (cycle), with the spec-computed level (nearest declaration wins), D every heading declaration x header/footer parts and nested list runs; each for DOCX and "
-         "ODT. L every list tree of <= 3 (thorough 4) items over depths 0..3 with empty items, restarts, level jumps and (ODT) item-less wrappers / continuation paragraphs, also checked in the Lists() view; H every history of 3 calls out of {Text, Markdown, MarkdownWithOptions, MarkdownWithRAGOptions x options, Document, ModelTables} on ONE reader over documents with headings of level 1..9 (ODT ..10), each call compared with the spec's levels for a fresh reader and with a fresh reader's result. Each case is rendered by the independent writers and read through docx.Open/odt.Open and tabula.Open "
+         "ODT. L every list tree of <= 3 (thorough 4) items over depths 0..3 with empty items, restarts, level jumps and (ODT) item-less wrappers / continuation paragraphs, also checked in the Lists() view; H every history of 3 calls out of {Text, Markdown, MarkdownWithOptions, MarkdownWithRAGOptions x heading options x ExcludeHeaders/ExcludeFooters, Document, ModelTables} on ONE reader over documents with headings of level 1..9 (ODT ..10), each call compared with the spec's levels for a fresh reader and with a fresh reader's result. Each case is rendered by the independent writers and read through docx.Open/odt.Open and tabula.Open "
          "(Text, Markdown, Document). Non-trivial = body with a table or a paragraph mixing >= 3 inline kinds; distinct by "
          "format + body. Traces = documents (a sample of the cases + larger random ones) whose observed model WordDocTrace.tla accepted.",
     assumptions=["the DOCX/ODT writers (harness/internal/wpw) are trusted; they are audited for XML well-formedness, token numbering "
@@ -52,6 +52,14 @@ NOTES = """Interpretation choices (soundness first):
   history of <= 3 calls must present the heading levels the spec computes for a freshly opened reader, keep all tokens in
   order, and return byte-for-byte what the same call returns on a fresh reader.  The write-back reader (Markdown
   stores its capped level into the parsed paragraph) is refuted by TLC.
+* Extraction options in histories: Text, MarkdownWithOptions and MarkdownWithRAGOptions take the call's own
+  ExtractOptions (ExcludeHeaders / ExcludeFooters: none, h, f, hf - the only fields docx.ExtractOptions and
+  odt.ExtractOptions have).  The history documents have a header and a footer part and body paragraphs that equal the
+  header line, the footer line, or neither.  Asserted: the header / footer parts themselves never add text to the body
+  (the line occurs at most as often as the body has paragraphs equal to it); a paragraph equal to a line that the
+  call's OWN options do not cover is body content and is shown; paragraphs the options cover may be filtered - there
+  only purity is asserted (same result as a fresh reader for the same call; in traces: the same call repeats its
+  result).  The reader that collects the lines to filter for the options of its first excluding call is refuted by TLC.
 * List trees (family L): a list is written as a sequence of item depths that may start deep, jump levels, contain
   empty items and - ODT - a further paragraph of an item after its nested list; DOCX numbering may use a second
   instance that restarts.  Every item text must be present once, in document order, at its depth (relative to the
@@ -156,12 +164,15 @@ def _histories(ctx, q):
                   collect=True, timeout=1800)
     neg = ctx.tlc("WordHistoryMC", "WordHistory_mc_impl.cfg", workers=1, expect_violation=True)
     ctx.extra["writeback_reader_refuted"] = neg["violated"]
+    neg = ctx.tlc("WordHistoryMC", "WordHistory_mc_implxo.cfg", workers=1, expect_violation=True)
+    ctx.extra["first_call_exclusion_set_reader_refuted"] = neg["violated"]
     cases = gen["cases"]
     if not cases:
         raise vlib.MachineryError("WordHistoryMC emitted no histories")
     ctx.extra["histories"] = len(cases)
     c0 = cases[len(cases) // 2]
-    ctx.sample({"history_on_one_reader": [[c["op"], c["off"], c["mx"], c["levels"]] for c in c0["calls"]], "fmt": c0["fmt"]})
+    ctx.sample({"history_on_one_reader": [[c["op"], c["off"], c["mx"], c["xo"], c["levels"], c["eh"], c["ef"]] for c in c0["calls"]],
+                "fmt": c0["fmt"]})
     res = ctx.run_driver(["c16", "history"], cases)
     _machinery(res)
     absorb(ctx, res, label="hist")
@@ -186,11 +197,13 @@ def _histories(ctx, q):
         raise vlib.MachineryError("WordHistoryTrace rejects event %d (%s): the history generator left the specification's "
                                   "document language" % (line, vlib.json.dumps(ev)[:400]))
     start = max(i for i in range(line) if events[i]["event"] == "Open")
-    before = [e["op"] for e in events[start + 1:line - 1]]
+    before = ["%s{%s}" % (e["op"], e.get("xo")) for e in events[start + 1:line - 1]]
     ctx.violation("C16:history-trace:%s:%s" % (events[start].get("fmt"), ev.get("op")),
-                  "WordHistoryTrace rejects call %s(offset=%s, max=%s) on a %s reader after %s: heading levels read back per block %s "
-                  "are not the levels a freshly opened reader presents"
-                  % (ev.get("op"), ev.get("off"), ev.get("mx"), events[start].get("fmt"), before, ev.get("levels")),
+                  "WordHistoryTrace rejects call %s(offset=%s, max=%s, exclude=%s) on a %s reader after %s: the heading levels read back "
+                  "per block %s / the body paragraphs equal to the header and footer line it shows (%s, %s) are not what a freshly "
+                  "opened reader presents for this call"
+                  % (ev.get("op"), ev.get("off"), ev.get("mx"), ev.get("xo"), events[start].get("fmt"), before, ev.get("levels"),
+                     ev.get("eh"), ev.get("ef")),
                   {"trace_segment": events[start:line], "rejected_line": line})
 
 
